@@ -9,7 +9,7 @@ from xv.props.common import new_case, build_root, flush_contracts, ctxs
 
 ID = "C09"
 LEVEL = "exploration"
-N_QUICK, N_THOROUGH = 50000, 1000000
+N_QUICK, N_THOROUGH = 70000, 1000000
 T_QUICK, T_THOROUGH = 70, 1500
 FLOORS = {"dest:same-buffer": 1500, "dest:other-buffer": 1500, "dest:other-context": 1500, "copies_with_refs": 1500,
           "isolation_writes": 20000, "referent_checks": 1500, "seen:ar1sS": 100, "hybrid_copies": 800,
